@@ -616,7 +616,7 @@ pub fn eval(expr: Node) -> Result<Number, Box<dyn error::Error>> {
         Med(args) => {
             let mut results = vec![];
             for arg in <Vec<Node> as Clone>::clone(&args).into_iter() {
-                results.push(eval(arg).unwrap());
+                results.push(eval(arg)?);
             }
             results.sort_by(|a, b| {
                 let a = match a {
@@ -627,7 +627,7 @@ pub fn eval(expr: Node) -> Result<Number, Box<dyn error::Error>> {
                     Number::Integer(x) => (*x) as f64,
                     Number::Float(x) => *x,
                 };
-                a.partial_cmp(&b).unwrap()
+                a.total_cmp(&b)
             });
             let len = results.len();
             if len % 2 == 0 {
